@@ -61,6 +61,10 @@ objs=[f*v*dx(degree=3, scheme="default")]'''),
 m=mesh("triangle"); V=space(m,"P",2); v=TestFunction(V); g=Coefficient(V)
 QE=basix.ufl.quadrature_element("triangle", (), "default", 3); f=Coefficient(FunctionSpace(m,QE))
 objs=[f*g*v*dx(degree=2), f*f*v*dx]'''),
+    _c("c11_quadrature_element_term_next_to_plain_terms", '''
+m=mesh("triangle"); V=space(m,"P",2); u,v=TrialFunction(V),TestFunction(V); f=Coefficient(V)
+QE=basix.ufl.quadrature_element("triangle", (), "default", 2); s=Coefficient(FunctionSpace(m,QE))
+objs=[s*v*dx(degree=2) + f*f*v*dx(degree=6), s*u*v*dx(degree=2) + f*u*v*dx(degree=4) + u*v*dx(1, degree=3), f*v*dx(degree=5) + s*s*v*dx]'''),
     _c("c11_quadrature_element_vector_tet", '''
 m=mesh("tetrahedron"); V=space(m,"P",1); v=TestFunction(V)
 QE=basix.ufl.quadrature_element("tetrahedron", (3,), "default", 2); f=Coefficient(FunctionSpace(m,QE))
